@@ -749,7 +749,7 @@ func (p *Parser) parseParen() (ast.Expr, error) {
 	}
 
 	if n := p.peek(); n.Typ != ast.ItemRightParen {
-		return nil, nil
+		return nil, fmt.Errorf("ln%v: expecting ) after expression, got %v", n.Line, n.Val)
 	}
 	p.next() // consume the right paren
 
